@@ -8,7 +8,8 @@ def main():
     os.makedirs(lib.WORK, exist_ok=True)
     os.makedirs(lib.EVID, exist_ok=True)
     try:
-        lib.cargo_build("rt")
+        for pkg in ("rt", "gen", "probes"):
+            lib.cargo_build(pkg)
     except lib.ToolError as e:
         print(e)
         sys.exit(2)
